@@ -493,6 +493,7 @@ func VerifH_C02_declroundtrip() {
 	})
 	if class == vp.NoPanic {
 		vp.Assert("C16.declroundtrip.balanced", balanced)
+		vp.Assert("C16.declroundtrip.stmtbalanced", fe.unbalanced == 0)
 	}
 	vp.Assert("C17.declroundtrip.nofault", class != vp.FaultPanic)
 	vp.Assert("C02.declroundtrip.accepted", class == vp.NoPanic)
